@@ -95,7 +95,13 @@ FillCase == [kind |-> "seq", disk |-> DiskJ, setup |-> SubSeq(Setup, 1, 2), labe
 \* "closing an archive invalidates exactly its own file and search handles": after closing the read-only (1)
 \* or the writable (2) archive, every function on every handle class (3 = file of 1, 4 = search of 1)
 ClosePairs == {<<a, b>> : a \in {c \in Reduced : c[1] = "CloseArchive" /\ c[2] \in {1, 2}}, b \in Reduced}
-EnumCases == <<FillCase>> \o SetToSeq({ECase(<<CallRec(p[1]), CallRec(p[2])>>, "closepair") : p \in ClosePairs}) \o SetToSeq({ECase(<<CallRec(c)>>, "single") : c \in Singles})
+\* cursor arithmetic: every read / seek class on the open file (3, two bytes, cursor at 1) followed by an observer of
+\* the cursor (position query, relative seeks, a read)
+CursorObs == {<<"GetFileInfo", 3, "", 10, 8, <<>>>>, <<"SetFilePointer", 3, "", -1, 1, <<>>>>,
+              <<"SetFilePointer", 3, "", 0, 1, <<>>>>, <<"ReadFile", 3, "", 3, 0, <<>>>>}
+CursorPairs == {<<a, b>> : a \in {c \in Singles : c[1] \in {"ReadFile", "SetFilePointer"} /\ c[2] = 3}, b \in CursorObs}
+EnumCases == <<FillCase>> \o SetToSeq({ECase(<<CallRec(p[1]), CallRec(p[2])>>, "closepair") : p \in ClosePairs})
+             \o SetToSeq({ECase(<<CallRec(p[1]), CallRec(p[2])>>, "cursorpair") : p \in CursorPairs}) \o SetToSeq({ECase(<<CallRec(c)>>, "single") : c \in Singles})
              \o SetToSeq({ECase(<<CallRec(p[1]), CallRec(p[2])>>, "pair") : p \in Pairs})
 ASSUME EnumMode => ndJsonSerialize(IOEnv.CASES, EnumCases) /\ PrintT(<<"GENERATED", Len(EnumCases)>>)
 =============================================================================
